@@ -201,6 +201,19 @@ def rule_find(ctx):
     B.check_find(ctx, "C02.FIND")
 
 
+def rule_e2e(ctx):
+    """Shape-independent: Buffer.process as a whole on the end-to-end catalogue (see bufferrules.process_e2e)."""
+    verdict, detail, n = B.process_e2e(ctx)
+    f = B.buf_cls(ctx.p).find_method("process")
+    ctx.counters["C02.E2E:buffer contents x thresholds"] = n
+    if verdict == "holds":
+        ctx.holds("C02.E2E", f.short, detail, fi=f)
+    elif verdict == "violated":
+        ctx.violated("C02.E2E", f.short, detail, fi=f, text="e2e")
+    else:
+        ctx.undecided("C02.E2E", f.short, detail, fi=f)
+
+
 def rule_own(ctx):
     B.check_own_buffer(ctx, "C02.OWN")
 
@@ -209,7 +222,10 @@ EXPLANATION = EXPLANATION + " C02.APPEND's operation sequences include pieces th
 
 EXPLANATION = EXPLANATION + " When a buffer is not organised into the helper roles (scan / resynchroniser / frontal drop) through which the symbolic rules extend over all inputs, those rules are decided on an end-to-end catalogue instead and say so: Buffer.process as a whole is evaluated on 30 constant buffer contents x 3 thresholds (valid messages, junk before/between/after, unknown and partial elements, unclosed junk beyond the threshold, quotes and '>' in text, multi-line spellings) and compared with a reference written from the property."
 
+EXPLANATION = EXPLANATION + " C02.E2E: that end-to-end catalogue is also evaluated on every run, whatever the shape of the buffer: deliveries (which prefixes, in which order) and the text retained afterwards must be what framing requires."
+
 RULES = [
+    ("C02.E2E", rule_e2e, "Buffer.process as a whole on 30 constant buffer contents x 3 thresholds: deliveries and retained text as framing requires"),
     ("C02.OWN", rule_own, "every connection object constructs its own receive buffer (no buffer shared through a default argument / class attribute)"),
     ("C02.FIND", rule_find, "the scan for a complete element, on constant buffers: exactly the first well-formed prefix is parsed; no '>' candidate is passed over"),
     ("C02.LOOP", rule_loop, "receive loops: read -> exactly one append(chunk) -> exactly one process(consumer); exit only on empty read"),
